@@ -99,6 +99,53 @@ func reencode(c *mon.Ctx, r *gen.Rand) {
 	if !bytes.Equal(x.Data(), re) {
 		c.Fail("reencode:string-changes-data", "String() changed the encoded bytes of an unchanged signal", w(x.Data(), ""))
 	}
+	// the encoding is a function of the field values: a decoded section that was not canonical (legacy
+	// splice_command_length 0xFFF, a CRC_32 that is not the checksum) is serialised as the canonical one
+	if r.Chance(3) {
+		v := append([]byte{}, sec...)
+		kind := ""
+		if r.Bool() {
+			kind += "cmdlen-0xfff,"
+			v[11] |= 0x0f
+			v[12] = 0xff
+			copy(v[len(v)-4:], ref.BE32(ref.CRC32MPEG2(v[:len(v)-4])))
+		}
+		if kind == "" || r.Bool() {
+			kind += "wrong-crc,"
+			switch r.Intn(3) {
+			case 0:
+				copy(v[len(v)-4:], []byte{0, 0, 0, 0})
+			case 1:
+				v[len(v)-1-r.Intn(4)] ^= 1 << uint(r.Intn(8))
+			default:
+				copy(v[len(v)-4:], r.Bytes(4))
+			}
+		}
+		c.Count("reencode.noncanonical_input/" + kind)
+		if y, err := scte35.NewSCTE35(append(ref.PointerPrefix(s.Ptr), v...)); err == nil && y != nil {
+			for round := 0; round < 2; round++ {
+				if got := y.UpdateData(); !bytes.Equal(got, sec) {
+					d := ref.FirstDiff(got, sec)
+					c.Fail("reencode:noncanonical-input/"+kind, fmt.Sprintf("a decoded section that differed from the canonical one only in %s is serialised with a difference at byte %d of %d (encoding %d)", kind, d, len(sec), round+1), w(got, "input variant "+mon.Hex(v)))
+					break
+				}
+			}
+		} else if !bytes.Equal(v[len(v)-4:], sec[len(sec)-4:]) && kind == "wrong-crc," {
+			c.Count("reencode.noncanonical_input_rejected")
+		} else {
+			c.Fail("reencode:noncanonical-input-rejected/"+kind, fmt.Sprintf("a section with %s was rejected: %v", kind, err), w(nil, mon.Hex(v)))
+		}
+	}
+	// the bytes handed out are the caller's to scribble on: the next encoding is computed from the field values again
+	if r.Chance(4) && len(re) > 8 {
+		for k := 0; k < 4; k++ {
+			re[len(re)-1-k] ^= byte(1 + r.Intn(255))
+		}
+		c.Count("reencode.after_caller_edit_of_result")
+		if got := x.UpdateData(); !bytes.Equal(got, sec) {
+			c.Fail("reencode:after-caller-edit-of-earlier-result", fmt.Sprintf("after the caller changed the CRC bytes of the slice an earlier UpdateData() returned, the next encoding differs from the canonical section at byte %d", ref.FirstDiff(got, sec)), w(got, ""))
+		}
+	}
 	if len(s.Descs) > 0 || s.Cmd != 0 {
 		ds := ""
 		for k := range s.Descs {
@@ -1019,6 +1066,9 @@ func run(c *mon.Ctx) {
 	c.Assume("API gaps: cw_index, encryption_algorithm, foreign descriptors and splice_insert component lists cannot be set through the API and are covered by (a) only. Domain restrictions (DESIGN section 3): SetHasSubSegments(true) only on types 0x34/0x36; device restrictions in 0..3; when a command stores a time that it does not encode, pts_adjustment is masked in the byte comparison; delivery sub-flags, durations, components and sub-segment numbers are compared after decoding only where their governing flag makes them present")
 	c.Floor("reencode.foreign_after_segmentation", 50)
 	c.Floor("large.sections", 20)
+	c.Floor("reencode.noncanonical_input/cmdlen-0xfff,", 500)
+	c.Floor("reencode.noncanonical_input/wrong-crc,", 500)
+	c.Floor("reencode.after_caller_edit_of_result", 500)
 	c.Floor("handle.component_edit", 100)
 	c.Floor("handle.mid_edit", 40)
 	c.Stream("reencode", c.N(30000, 15000000), func(i int, r *gen.Rand) { reencode(c, r) })
